@@ -1,5 +1,6 @@
 import BppProofs.Lemmas.OptimGolden
 import BppProofs.Lemmas.OptimObjective
+import BppProofs.Lemmas.OptimSync
 /-!
 # C10, part 3 — GoldenSectionSearch in full
 
@@ -72,6 +73,35 @@ theorem golden_descent_objective (obj : List ℝ → ℝ) (D : Deriv ℝ) (cap :
     golden_descent _ _ (objective_det obj D cap pt0 k) fuel fuel' s s1 s2 [q] v hJ hinit hopt
   simp only [Spec.descent, ScalarReal.leb_iff] at h1 h2
   exact ⟨h1, h2, x, hv, hx, h5⟩
+
+/-- `golden_descent` for the objective of the harness searched along a coordinate whose parameter has
+**any constraint** and either dynamic type, under any policy (precision 0, feasible starting value):
+with `κ x` = what `setValue(x)` stores in the parameter (`x` itself when accepted, the auto-corrected
+value otherwise), the value returned is not above the objective at `κ` of either end of the initial
+interval, and it is the objective at what the optimiser's parameter holds. -/
+theorem golden_descent_objective_con (obj : List ℝ → ℝ) (D : Deriv ℝ) (cap : Option Nat) (pt0 : List ℝ) (k : Nat) (hk : k < pt0.length)
+    (q : NP ℝ) (hq : q.name = k) (hp : q.p.precision = 0) (hi : q.p.invOk = true)
+    (fuel fuel' : Nat) (s s1 s2 : St (Fn ℝ) (Gss ℝ) ℝ) (v : ℝ) (hpt : s.fn.point = pt0)
+    (hinit : (gssAlgo (Fn.iface obj D cap) fuel).init s [q] = .ok s1)
+    (hopt : gssOptimize (Fn.iface obj D cap) fuel' s1 = .ok (s2, v)) :
+    ∃ p0 : Param ℝ, applyPolicy s.core.policy [q] = [⟨k, p0⟩] ∧
+      v ≤ obj (pt0.set k (corr p0 s.ext.xinf)) ∧ v ≤ obj (pt0.set k (corr p0 s.ext.xsup)) ∧
+      ∃ x, value0 s2.core.params = some x ∧ v = obj (pt0.set k x) ∧ s2.core.cur = v := by
+  obtain ⟨p0, hap, hp0v, hp0p, hp0i⟩ := applyPolicy_single s.core.policy q
+  have hp0prec : p0.precision = 0 := by rw [hp0p]; exact hp
+  have hp0inv : p0.invOk = true := hp0i hi
+  rw [hq] at hap
+  have hJ : AlongP pt0 k p0 s.fn (applyPolicy s.core.policy [q]) := by
+    rw [hap]
+    exact ⟨⟨p0.value, by rw [reval_self], hp0inv⟩, hk, by rw [hpt], fun _ _ => by rw [hpt]⟩
+  obtain ⟨h1, h2, -, -, h5, x, hvx, hxs, hJ2⟩ :=
+    golden_descent _ _ (objective_det_con obj D cap pt0 k p0 hp0prec hp0inv) fuel fuel' s s1 s2 [q] v hJ hinit hopt
+  simp only [Spec.descent, ScalarReal.leb_iff] at h1 h2
+  refine ⟨p0, hap, h1, h2, x, hxs, ?_, h5⟩
+  obtain ⟨⟨w, hw, hacc⟩, -⟩ := hJ2
+  have hwx : w = x := by
+    rw [hw] at hxs; simpa [value0] using hxs
+  rw [hvx, ← hwx, corr_accepted p0 w hp0prec hp0inv hacc]
 
 /-- non-vacuity of `golden_interval_invariant`'s hypothesis and of the constants -/
 example : (Gss.Ordered (⟨0, 0, 0, 1, 2, 3, 0, 3⟩ : Gss ℝ)) := Or.inl ⟨by norm_num, by norm_num, by norm_num⟩
